@@ -568,7 +568,7 @@ def run(ctx):
             if same_family(a, b_):
                 k = (1 if hv_ else 2) if quick else (3 if hv_ else NI)
             elif quick:
-                k = 1 if rng.random() < (0.1 if hv_ else 0.4) else 0      # seeded 40 % of the cross-family pairs
+                k = 1 if rng.random() < (0.1 if hv_ else 0.33) else 0      # seeded third of the cross-family pairs
             else:
                 k = 1 if hv_ else 3
             for il in rng.sample(range(NI), k):
@@ -600,7 +600,7 @@ def run(ctx):
             trip = rng.sample(trip, cap)
         for a, b_, c in trip:
             push({"shape": "triple", "A": a, "B": b_, "C": c}, lambda b0, a=a, b_=b_, c=c: triple_history(a, b_, c, b0))
-    for _ in range(100 if quick else 5000):
+    for _ in range(60 if quick else 5000):
         a, b_, c = rng.choice(light), rng.choice(light), rng.choice(light)
         push({"shape": "triple", "A": a, "B": b_, "C": c}, lambda b0, a=a, b_=b_, c=c: triple_history(a, b_, c, b0))
     rng.shuffle(hist)
@@ -671,11 +671,11 @@ def run(ctx):
             if code == 3:
                 reparse_diff.add(res[k]["parser"])
                 continue
-            unexplained.append((code, label, h, res[k]))
+            unexplained.append((code, label, h, res[k], batch, owner[k]))
 
     # isolate: re-run the single history in its own interpreter; keep the smaller failing input when it reproduces
     fresh_of = {(j["parser"], j["file"], j["argkey"]): j for j in corpus}
-    for code, label, h, ob in unexplained[:6]:
+    for code, label, h, ob, batch, hpos in unexplained[:4]:
         alone = worker("history", {"ops": ops_to_worker(h, corpus)}, timeout=600)
         lone_bad = []
         if isinstance(alone, list):
@@ -689,11 +689,33 @@ def run(ctx):
                                  if j["parser"] == ob["parser"] and j["file"] == ob["file"]},
                "reproduces_alone_in_fresh_interpreter": bool(lone_bad), "alone_mismatches": lone_bad[:3],
                "how": f"{sys.executable} run_check.py C16 replay <this file>   (runs `ops` in one fresh interpreter and compares each parse with a fresh-interpreter parse)"}
+        if not lone_bad and code != 4:
+            # the history is innocent: the state came from an earlier history of the same interpreter.  Find the smallest
+            # culprit "parse X, mutate result, then parse J", every candidate in its own fresh interpreter.
+            jx = next((j for kind, i, j in h if i == ob["i"] and j is not None), None)
+            seen_jobs = []
+            for _, hh in reversed(batch[:hpos]):
+                for kind, i, j in hh:
+                    if j is not None and j not in seen_jobs:
+                        seen_jobs.append(j)
+            if jx is not None:
+                rank = lambda j: (corpus[j]["parser"] != corpus[jx]["parser"], fam[corpus[j]["parser"]] != fam[corpus[jx]["parser"]])
+                cands = sorted(seen_jobs, key=rank)[:48]
+                mk = lambda j: [("parse_file", 0, j), ("mutate", 0, None), ("parse_file", 1, jx)]
+                outs = pmap(lambda j: worker("history", {"ops": ops_to_worker(mk(j), corpus)}, timeout=600), cands)
+                for j, o in zip(cands, outs):
+                    if isinstance(o, list) and len(o) == 2 and o[1].get("digest") != corpus[jx]["digest"]:
+                        rep["ops"] = ops_to_worker(mk(j), corpus)
+                        rep["minimal_history"] = label_text({"shape": "X then J", "A": j, "B": jx})
+                        rep["observed"] = {k: o[1].get(k) for k in ("i", "parser", "file", "digest", "exc", "parts")}
+                        rep["reproduces_alone_in_fresh_interpreter"] = True
+                        label = {"shape": "parse_file A; mutate; parse_file B", "A": j, "B": jx}
+                        break
         if code == 4:
             ctx.violation(rep, what=f"parsing changed the input file: {ob['parser']} on {os.path.basename(ob['file'])}")
         else:
             ctx.violation(rep, what=f"parse of {ob['parser']}({os.path.basename(ob['file'])}) in history {label_text(label)} differs from the parse in a fresh interpreter")
-    if len(unexplained) > 6:
+    if len(unexplained) > 4:
         ctx.notes.append(f"{len(unexplained)} unexplained observations in total")
     if reparse_diff:
         ctx.count("quirk:reparse", len(reparse_diff))
@@ -791,7 +813,7 @@ def run(ctx):
         rule=("corpus = every listed parser x its example file (tests/parsers/example_files/<name>), the files the tests name, extra files for "
               "the untested parsers and six argument variants; each parsed in 2 fresh interpreters (2 hash seeds). Histories: per ordered pair "
               "(A,B) of corpus jobs incl. A=B the interleavings of {construct A, parse A, mutate result A} with {construct B, parse B} followed by "
-              "parse_file(A) again - 2 (quick) / all 10 (thorough) within a parser family, 1 for a seeded 40 % of the cross-family pairs (quick) / 3 for all (thorough); a re-parse "
+              "parse_file(A) again - 2 (quick) / all 10 (thorough) within a parser family, 1 for a seeded third of the cross-family pairs (quick) / 3 for all (thorough); a re-parse "
               "history per job; triples A,B,C (sampled in quick; all within family + 30000 across in thorough). Generated RINEX 3 headers "
               "(1-4 files x 1-4 OBS TYPES lines, with/without leading continuation line) against the parser_cache model. "
               "distinct_nontrivial = distinct histories + plug-in rows"),
